@@ -93,6 +93,9 @@ def build(call):
     if call.get("layout") == "mc":
         fc = fc.transpose(md, "c").copy()
     ob = xr.DataArray(np.array(call["obs"], dtype=float), dims=["c"], coords={"c": labels})
+    if call.get("obs_perm") and sorted(call["obs_perm"]) == list(range(n)):
+        # the observation stores the same case labels in another order: alignment is by label
+        ob = ob.isel(c=list(call["obs_perm"]))
     w = None
     if call.get("weights") is not None:
         w = xr.DataArray(np.array(call["weights"], dtype=float), dims=["c"], coords={"c": labels})
@@ -360,6 +363,10 @@ def gen_call(rng, fn=None, force=None):
             if key in call:
                 call[key] = [sh(v) for v in call[key]] if isinstance(call[key], list) else sh(call[key])
         call["offset"] = off
+    if n > 1 and rng.random() < 0.3:
+        perm = list(range(n))
+        rng.shuffle(perm)
+        call["obs_perm"] = perm
     call.update(force.get("set", {}))
     return call
 
